@@ -70,6 +70,34 @@ Proof.
   split; [reflexivity|apply (fn_return_type_wf ft r W Er)].
 Qed.
 
+(* reduce.rs::plant *)
+Lemma plant_call_ok fv y : wf_fun_val fv = true -> rt_ok y -> rt_ok (plant_call fv y).
+Proof.
+  intros Hfv Hy. destruct fv; try discriminate Hfv. unfold plant_call.
+  eapply call_rt_ok; [reflexivity|exact Hfv|constructor; [exact Hy|constructor]|discriminate].
+Qed.
+
+Lemma plant_reducer_good (b : Prop) rs yi yt :
+  wf_reds rs = true -> rt_ok yi -> good b rt_ok (plant_reducer rs yi yt).
+Proof.
+  intros Wr Hy. unfold plant_reducer.
+  assert (Hall : forall kf, In kf rs -> wf_ty (fst kf) = true /\ wf_fun_val (snd kf) = true).
+  { intros kf Hin. destruct rs as [|kf0 rs]; [destruct Hin|]. unfold wf_reds in Wr.
+    rewrite forallb_forall in Wr. apply andb_true_iff, Wr, Hin. }
+  destruct (filter (fun kf => matches (fst kf) yt) rs) as [|[k f] [|kf2 l]] eqn:E.
+  - destruct rs as [|[k f] rs]; [discriminate Wr|].
+    apply good_ok, plant_call_ok; [apply (Hall (k, f)); left; reflexivity|exact Hy].
+  - assert (Hin : In (k, f) rs).
+    { apply (proj1 (filter_In (fun kf => matches (fst kf) yt) (k, f) rs)). rewrite E. left. reflexivity. }
+    apply good_ok, plant_call_ok; [apply (Hall (k, f) Hin)|exact Hy].
+  - apply good_ok. apply rt_ok_match; [discriminate|]. apply Forall_forall. intros a Ha.
+    apply in_map_iff in Ha. destruct Ha as [kf [<- Hkf]]. cbn [arm_instr].
+    assert (Hin : In kf rs).
+    { apply (proj1 (filter_In (fun kf => matches (fst kf) yt) kf rs)). rewrite E. exact Hkf. }
+    destruct (Hall kf Hin) as [Wk Wf].
+    apply plant_call_ok; [exact Wf|]. apply rt_ok_local. exact Wk.
+Qed.
+
 Lemma concat_all_wf ts :
   forallb wf_ty ts = true -> wf_ty (match concat_all ts with Some t => t | None => TNever end) = true.
 Proof.
@@ -562,12 +590,10 @@ Proof.
     + destruct (matches yt _); [|apply good_reject]. apply good_ok, Plant. assumption.
     + destruct (iter_element yt) as [el|] eqn:Eel; [|apply good_reject]. cbn [negb andb].
       destruct (matches yt ACC_SUM); [|apply good_reject].
-      apply good_ok. exists el. rewrite rt_un, Ey. cbn [obind un_rt]. rewrite Eel.
-      split; [reflexivity|apply (iter_element_wf yt el Wy Eel)].
+      apply plant_reducer_good; assumption.
     + destruct (iter_element yt) as [el|] eqn:Eel; [|apply good_reject]. cbn [negb andb].
       destruct (matches yt ACC_PRODUCT); [|apply good_reject].
-      apply good_ok. exists el. rewrite rt_un, Ey. cbn [obind un_rt]. rewrite Eel.
-      split; [reflexivity|apply (iter_element_wf yt el Wy Eel)].
+      apply plant_reducer_good; assumption.
     + destruct (iter_element yt) as [el|] eqn:Eel; [|apply good_reject]. cbn [negb andb].
       destruct (matches yt ITERATOR_TYPE); [|apply good_reject].
       apply good_ok. exists (TArr el). rewrite rt_un, Ey. cbn [obind un_rt]. rewrite Eel.
